@@ -13,7 +13,7 @@ from ..ref import sqf_interp as I
 PROPERTY = "C11"
 LEVEL = "model_checking"
 VARIANTS = ["fast"]
-RULE = ("histories: all sequences of <=2 (quick) / <=3 (thorough) runs over 11 program kinds x 4 idle gaps, x 3 clock tick sizes, limit 50 ms; "
+RULE = ("histories: all sequences of <=2 (quick) / <=3 (thorough) runs over 17 program kinds x 4 idle gaps, x 3 clock tick sizes, limit 50 ms; "
         "states = distinct (program, gap, position) run contexts, transitions = runs; loop cap: 5 caps x 7 bodies x 2 scheduling modes; "
         "non-trivial = history contains a non-terminating program")
 ASSUMPTIONS = [
@@ -36,6 +36,14 @@ PROGS = {
     "mutual-spawn": ("g = { [] spawn g; [] spawn g }; [] spawn g", True, False),
     "growing-foreach": ("a = [1]; { a pushBack 1 } forEach a", False, False),
     "sleep-loop": ("while {true} do { sleep 1 }", True, False),
+    # loops that restart without executing a single instruction (empty body / empty condition): the frame restarts itself
+    # over and over, so the limit has to be looked at there too
+    "for-step0-empty": ("for \"_i\" from 0 to 1 step 0 do {}", False, False),
+    "for-step0-empty-scheduled": ("for \"_i\" from 0 to 1 step 0 do {}", True, False),
+    "for-long-empty": ("for \"_i\" from 0 to 1e9 do {}", False, False),
+    "for-step0-body": ("for \"_i\" from 0 to 1 step 0 do { q = 1 }", False, False),
+    "waituntil-false": ("waitUntil { false }", False, False),
+    "waituntil-false-scheduled": ("waitUntil { false }", True, False),
 }
 GAPS_MS = [0, M_MS // 2, M_MS + 1, 10 * M_MS]
 TICKS_US = [10, 100, 500]
